@@ -61,6 +61,7 @@ fn registry(id: &str) -> Option<(&'static str, RunFn, ReplayFn)> {
         "C18" => ("C18", props::c18::run, props::c18::replay),
         "C19" => ("C19", props::c19::run, props::c19::replay),
         "C20" => ("C20", props::c20::run, props::c20::replay),
+        "C01" => ("C01", props::c01::run, props::c01::replay),
         "C02" => ("C02", props::c02::run, props::c02::replay),
         "C03" => ("C03", props::c03::run, props::c03::replay),
         "C04" => ("C04", props::c04::run, props::c04::replay),
